@@ -318,6 +318,42 @@ def run(ctx):
             if not same:
                 fail('multi_differs_from_single', inp, 'the report of this target in the fleet run', 'its single-target report')
     spelling_stage(ctx, fail, cov)
+    # (h) edit-then-abort with the rate check enabled: a scan that has written size findings into the thread's database and then dies of a socket error inside its
+    # rate check, followed on the same pool thread by a target with the same lists and a larger key (seed C07-1 after the probe-framing repair a2332a7 removed the
+    # sys.exit path the older edit-then-abort archetypes used). Each fleet runs in a process of its own under a time limit.
+    fleets = [(['rsa1024_rateunreach', 'rsa4096_dh'], 1, [], True), (['rsa1024_rateunreach', 'rsa4096_dh', 'rsa1024_rateunreach', 'rsa4096_dh'], 1, [], True),
+              (['rsa4096_dh', 'rsa1024_rateunreach', 'rsa4096_dh'], 2, [], True), (['rsa1024_rateunreach', 'rsa4096_dh'], 1, ['-j'], True)]
+    for (lst, th, ex, _), res_ in zip(fleets, mc.isolated_fleets(fleets)):
+        inp = {'stage': 'rate-abort', 'targets': lst, 'threads': th, 'args': ex}
+        cov.add(('rate-abort', tuple(lst), th, tuple(ex)), True, tags=['edit-then-abort', 'rate-check-enabled'])
+        if res_.get('hang'):
+            fail('run_does_not_terminate', inp, res_.get('stdout_tail'), 'the run ends')
+            continue
+        strip = lambda t: '\n'.join(l for l in t.split('\n') if not l.startswith('(nfo) Potentially insufficient connection throttling'))
+        if ex:
+            # one target died: stdout is not one JSON array (known finding D05-multi of C08); look at the healthy targets' documents only
+            for i, n in enumerate(lst):
+                if n != 'rsa4096_dh':
+                    continue
+                want = json.loads(res_['singles'][i][1])
+                tag = '"target": "%s:22"' % mc.ip_of(i)
+                seg = [d for d in res_['out'].replace('}, {', '}\x00{').replace('}{', '}\x00{').split('\x00') if tag in d]
+                try:
+                    got = json.loads(seg[0].strip().lstrip('[, ').rstrip('], \n')) if seg else None
+                except ValueError:
+                    got = None
+                if got is not None and got != want:
+                    fail('multi_differs_from_single', dict(inp, target=n, format='json'), {k: got.get(k) for k in ('key', 'recommendations')}, {k: want.get(k) for k in ('key', 'recommendations')})
+            continue
+        by = {}
+        for b in mc.split_text_blocks(res_['out']):
+            by.setdefault(mc.block_target(b), strip(mc.normalise_block(b)))
+        for i, n in enumerate(lst):
+            if n == 'rsa4096_dh':
+                want = strip(mc.normalise_block(res_['singles'][i][1]))
+                if by.get(mc.ip_of(i)) != want:
+                    gl, wl = (by.get(mc.ip_of(i)) or '').split('\n'), want.split('\n')
+                    fail('multi_differs_from_single', dict(inp, target=n, format='text'), {'only_in_multi': [l for l in gl if l not in wl][:6]}, {'only_in_single': [l for l in wl if l not in gl][:6]})
     # (d) policy verdicts are per target
     d = tempfile.mkdtemp(prefix='verif_c07_')
     try:
@@ -422,7 +458,7 @@ def spelling_stage(ctx, fail, cov):
 def replay(obj):
     f = obj.get('failure', obj)
     inp = f['input']
-    if inp.get('stage') == 'spelling':
+    if inp.get('stage') in ('spelling', 'rate-abort'):
         import sys
         from common import rerun_for_signature
         return rerun_for_signature(sys.modules[__name__], f)
